@@ -107,6 +107,33 @@ def run(prog, rep):
                                   f'the elements whose properties are compared do not range over all common elements (_dict_common of the two '
                                   f'containers): common elements that the pre-selection considers equal (sliver == compares name and id only) are '
                                   f'never compared, so a changed property of an existing element goes unreported')
+        # ... and each common element (taken from this sliver) is compared with its counterpart in the OTHER sliver
+        for n in walk_no_nested(fn):
+            if isinstance(n, ast.Call) and call_name(n) in ('prop_diff', 'diff') and isinstance(n.func.value, ast.Name) and n.func.value.id != 'self' and \
+                    len(n.args) == 1 and isinstance(n.args[0], ast.Name):
+                var, arg = n.func.value.id, n.args[0].id
+                loops_ = [l for l in ast.walk(fn) if isinstance(l, ast.For) and any(isinstance(x, ast.Name) and x.id == var for x in ast.walk(l.target)) and
+                          any(x is n for x in ast.walk(l))]
+                if not loops_:
+                    continue
+                defs_ = [a.value for a in ast.walk(loops_[-1]) if isinstance(a, ast.Assign) and any(isinstance(t, ast.Name) and t.id == arg for t in a.targets)]
+                if not defs_:
+                    continue
+                for d_ in defs_:
+                    d2 = A(d_)
+                    roots = set()
+                    for x in ast.walk(d2):
+                        if isinstance(x, ast.Attribute):
+                            ch_ = attr_chain(x)
+                            if ch_ and ch_[0] in ('self', oth) and len(ch_) >= 2:
+                                roots.add(ch_[0])
+                    keyed = any(isinstance(x, ast.Name) and x.id == var for x in ast.walk(d2))
+                    rep.instance('R1', f'{fq}: {var}.{call_name(n)}({arg}) with {arg} = {norm(d_, 70)}')
+                    if roots != {oth} or not keyed:
+                        rep.violation('R1', loc(mod, d_), fq, f'counterpart {arg} = {norm(d_, 80)}',
+                                      f'the element `{var}` of this sliver must be compared with the element of the same key in `{oth}`; '
+                                      f'`{arg}` is looked up in {sorted(roots) or "neither sliver"}' + ('' if keyed else f' and not by the key of `{var}`') +
+                                      f': an element compared with itself never differs, so a changed sub-element is never reported')
         # R3 one-sided cases per result collection, from the path-sensitive evaluation of the method
         tds = [n for n in walk_no_nested(fn) if isinstance(n, ast.Call) and isinstance(n.func, ast.Name) and n.func.id == 'TopologyDiff']
         if not tds:
